@@ -23,7 +23,11 @@ def run_one(kind, entry, props):
     try:
         tree = os.path.join(tmp, "tree")
         shutil.copytree(REPO, tree, ignore=shutil.ignore_patterns(".git"))
-        for e in entry["edits"]:
+        if entry.get("patch"):
+            pr = subprocess.run(["git", "apply", "--whitespace=nowarn", os.path.join(HERE, entry["patch"])], cwd=tree, capture_output=True, text=True)
+            if pr.returncode != 0:
+                return {"id": entry["id"], "status": "skipped", "why": "patch does not apply: " + pr.stderr[:200]}
+        for e in entry.get("edits", []):
             path = os.path.join(tree, e["file"])
             if not os.path.exists(path):
                 return {"id": entry["id"], "status": "skipped", "why": "file missing: " + e["file"]}
